@@ -65,7 +65,7 @@ Justified(c, s, p, t) ==
   \/ c.kind = "deadline" /\ t >= c.deadline
   \/ c.kind = "queue" /\ s.since[p] >= 0 /\ c.qtimeout > 0 /\ t >= s.since[p] + c.qtimeout
   \/ c.kind = "queue" /\ s.since[p] < 0
-       /\ Cardinality({q \in Procs(c) : q # p /\ s.call[q] = "open" /\ s.since[q] >= 0}) >= c.qmax
+       /\ Cardinality({q \in Procs(c) : q # p /\ s.call[q] = "open" /\ InSeq(q, s.order)}) >= c.qmax
 
 (* ---- one event of a step ------------------------------------------------------------------ *)
 Ev(c, s, e) ==
@@ -93,6 +93,15 @@ Ev(c, s, e) ==
          ELSE Fail(s, "conserve", "completion of a token that is not out")
     [] e.k = "ret" ->
          IF s.call[e.p] # "open" THEN Fail(s, "conserve", "return of a call that is not open")
+         ELSE IF e.ok /\ c.blackbox
+         THEN LET waiting == SelectSeq(s.order, LAMBDA q : s.call[q] = "open")
+                  want == IF Len(waiting) = 0 THEN "" ELSE IF c.expect = "fifo" THEN waiting[1] ELSE waiting[Len(waiting)]
+                  s1 == [s EXCEPT !.call[e.p] = "granted", !.since[e.p] = -1, !.tok[e.p] = 1]
+              IN IF e.nil THEN Fail(s, "conserve", "ok=true with a nil listener")
+                 ELSE IF Held(c, s) >= c.limit THEN Fail(s1, "gate", "granted while the limit of tokens was already held")
+                 ELSE IF c.kind = "queue" /\ InSeq(e.p, waiting) /\ want # e.p
+                      THEN Fail(s1, "order", "capacity went to a caller that is not next in the configured order")
+                 ELSE s1
          ELSE IF e.ok
          THEN IF e.nil THEN Fail(s, "conserve", "ok=true with a nil listener")
               ELSE IF s.tok[e.p] = 1 /\ s.transit[e.p] = 0 THEN [s EXCEPT !.call[e.p] = "granted", !.since[e.p] = -1]
@@ -101,6 +110,7 @@ Ev(c, s, e) ==
               ELSE Fail(s, "conserve", "granted call does not hold exactly one token")
          ELSE IF ~e.nil THEN Fail(s, "conserve", "ok=false with a non-nil listener")
               ELSE IF s.tok[e.p] # 0 THEN Fail(s, "conserve", "refused call still holds a token")
+              ELSE IF c.allserved THEN Fail([s EXCEPT !.call[e.p] = "refused"], "starved", "a caller within limit + backlog was refused although every holder released in time")
               ELSE IF ~Justified(c, s, e.p, e.t) THEN Fail([s EXCEPT !.call[e.p] = "refused"], "early", "refused without cancellation, deadline, timeout or full backlog")
               ELSE IF c.kind = "queue" /\ s.since[e.p] < 0 /\ ~s.cancelled[e.p] /\ e.t # s.now
                    THEN Fail([s EXCEPT !.call[e.p] = "refused"], "backlog", "refusal at a full backlog took virtual time")
@@ -115,7 +125,9 @@ StepAct(c, s, x, prev) ==
   CASE x.a = "start" /\ x.call = "acquire" ->
          IF s.call[x.p] # "none" THEN Fail(s, "harness", "second acquire of a process") ELSE [s EXCEPT !.call[x.p] = "open"]
     [] x.a = "start" /\ x.call = "release" ->
-         IF s.call[x.p] # "granted" THEN Fail(s, "harness", "release without a grant") ELSE [s EXCEPT !.call[x.p] = "done"]
+         IF s.call[x.p] # "granted" THEN Fail(s, "harness", "release without a grant")
+         ELSE IF c.blackbox THEN [s EXCEPT !.call[x.p] = "done", !.tok[x.p] = 0]
+         ELSE [s EXCEPT !.call[x.p] = "done"]
     [] x.a = "cancel" -> [s EXCEPT !.cancelled[x.p] = TRUE]
     [] x.a = "pass" /\ x.gate = "rel.exit" ->
          \* the Broadcast / unblock of a completion: remember who was between a failed attempt and sleep
@@ -138,8 +150,8 @@ AfterObs(c, s0, o) ==
                       !.since = [p \in Procs(c) |-> IF o.procs[p] = "blocked" /\ s0.since[p] < 0 THEN o.t
                                                    ELSE IF o.procs[p] = "blocked" THEN s0.since[p]
                                                    ELSE IF s0.call[p] = "open" THEN s0.since[p] ELSE -1]] IN
-  IF o.busy # Held(c, s) THEN Fail(s, "conserve", "strategy busy count differs from the tokens out")
-  ELSE IF o.gauge # Held(c, s) THEN Fail(s, "conserve", "limiter in-flight gauge differs from the tokens out")
+  IF o.busy >= 0 /\ o.busy # Held(c, s) THEN Fail(s, "conserve", "strategy busy count differs from the tokens out")
+  ELSE IF o.gauge >= 0 /\ o.gauge # Held(c, s) THEN Fail(s, "conserve", "limiter in-flight gauge differs from the tokens out")
   ELSE s
 
 (* stable-state checks: the set of soft rejections (class, process) *)
@@ -151,7 +163,7 @@ Soft(c, s, o) ==
             \/ (c.kind = "deadline" /\ o.t >= c.deadline)
             \/ (s.cancelled[q] /\ (IsWaitKind(c) \/ c.evictctx))
             \/ (c.kind = "queue" /\ c.qtimeout > 0 /\ s.since[q] >= 0 /\ o.t >= s.since[q] + c.qtimeout)}}
-    \cup (IF c.kind = "queue" /\ o.q # Cardinality(Asleep(o, c)) THEN {<<"backlog", "size">>} ELSE {})
+    \cup (IF c.kind = "queue" /\ o.q >= 0 /\ o.q # Cardinality(Asleep(o, c)) THEN {<<"backlog", "size">>} ELSE {})
     \cup (IF c.kind = "queue" /\ Cardinality(Asleep(o, c)) > c.qmax THEN {<<"backlog", "over">>} ELSE {})
 
 Init == l = 1 /\ ok = FALSE /\ cfg = [kind |-> "none"] /\ st = [err |-> ""]
@@ -169,6 +181,11 @@ Step ==
      THEN /\ cfg' = e.cfg /\ ok' = TRUE
           /\ st' = [InitSt(e.cfg) EXCEPT !.status = e.obs.procs]
      ELSE IF ~ok THEN UNCHANGED <<ok, cfg, st>>
+     ELSE IF e.ev = "End"
+     THEN /\ UNCHANGED <<ok, cfg, st>>
+          /\ \A p \in Procs(cfg) : (cfg.allserved /\ st.call[p] = "open") =>
+                PrintT(<<"REJECT", ToJson([trace |-> e.trace, line |-> l, i |-> e.i, class |-> "starved", why |-> "caller never answered", p |-> p,
+                                           known |-> "", step |-> [a |-> "end"], obs |-> e.obs])>>)
      ELSE LET s1 == StepAct(cfg, st, e.step, [procs |-> st.status, kids |-> st.kids])
               s2 == Evs(cfg, s1, e.evs, 1)
               s3 == AfterObs(cfg, s2, e.obs)
